@@ -1248,9 +1248,32 @@ class PlainGen(Gen):
             self.f("list:unkeyed-config-false")
         else:
             nk = r.choice([1, 1, 1, 2, 2, 3])
+            twinpair = None
+            if nk >= 2 and r.random() < 0.3:
+                fam = r.choice(COLLIDERS)
+                pairs = [(a, b) for a in fam for b in fam if a < b and camel(a) == camel(b)]
+                if pairs:
+                    twinpair = r.choice(pairs)
             for i in range(nk):
                 kt = self.key_type(m)
-                k = N("leaf", self.fresh(lused), mod=m)
+                kname = None
+                if twinpair and i < 2 and twinpair[i] not in lused:
+                    kname = twinpair[i]
+                    lused.append(kname)
+                    if i == 1:
+                        self.f("key:camelcase-twin")
+                elif i >= 1 and r.random() < 0.3:
+                    # a second key that differs from the previous one only by '-', '_' or '.': both keys get the
+                    # same CamelCase name, which the generator has to make unique ("AB", "AB_")
+                    prev = l.keys[-1]
+                    twins = [t for t in (prev.replace("-", "_"), prev.replace("_", "-"), prev.replace("-", "."),
+                                         prev + "_" if not prev.endswith("_") else None)
+                             if t and t != prev and t not in lused and camel(t) == camel(prev)]
+                    if twins:
+                        kname = r.choice(twins)
+                        lused.append(kname)
+                        self.f("key:camelcase-twin")
+                k = N("leaf", kname or self.fresh(lused), mod=m)
                 k.typ = kt
                 l.add(k)
                 l.keys.append(k.name)
